@@ -72,6 +72,10 @@ func IndexFromReader(r io.Reader) (c Index, err error) {
 	c.Chunks = make([]IndexChunk, len(table.Items))
 	var lastOffset uint64
 	for i, r := range table.Items {
+		// The table holds the end offset of every chunk, those can't go backwards
+		if r.Offset < lastOffset {
+			return c, fmt.Errorf("chunk offset %d is smaller than the previous one %d", r.Offset, lastOffset)
+		}
 		c.Chunks[i].ID = r.Chunk
 		c.Chunks[i].Start = lastOffset
 		c.Chunks[i].Size = r.Offset - lastOffset
